@@ -9,7 +9,10 @@ CHECK = {
             "router gave it; physical operations are attributed to the backend through an op tag. C: cubbyhole data of T read "
             "and listed with root / parent / sibling / child. N: a namespace-local token with a catch-all policy against every "
             "namespace x 5 paths x 2 operations, and namespace escapes through the path. S: every operation into a separately "
-            "sealed namespace. distinct non-trivial = distinct (topology, mount, key shape, operation, result class)",
+            "sealed namespace (also nested in another sealed one). G: a login token of org/team/ whose entity is made a member of "
+            "a group with an all-powerful policy in every namespace of the tree in turn (with and without "
+            "unsafe_cross_namespace_identity): refused, without backend invocation, everywhere outside org/team/ and below. "
+            "distinct non-trivial = distinct (topology, mount, key shape, operation, result class)",
     "assumptions": [
         "a mount's prefix is discovered empirically (probe write) and must not be nested in another mount's prefix",
         "physical keys of core bookkeeping (token store, leases, counters) may change during a request; everything else outside the mount prefix may not",
